@@ -389,7 +389,7 @@ def conc_meta(meta, m):
     return out
 
 
-def run_case(chk, engine, detector, su, label, loc_names, oracle_fn=None, confirm=True, role=None, meta=None, base=()):
+def run_case(chk, engine, detector, su, label, loc_names, oracle_fn=None, confirm=True, role=None, meta=None, base=(), only_panics=False, no_fallback=False):
     """executes the detector's MIR on `su`, decides the oracle on every path, validates each path natively.
     `role`: prefix of the known-finding key (defaults to the detector name)."""
     res = CaseResult()
@@ -404,7 +404,8 @@ def run_case(chk, engine, detector, su, label, loc_names, oracle_fn=None, confir
     for r in paths:
         if r.outcome == 'unsupported':
             chk.undecide('%s [%s]: %s' % (detector, label, r.value))
-            fallback_native(chk, detector, su, r, label, role, oracle_fn, meta, base)
+            if not no_fallback:
+                fallback_native(chk, detector, su, r, label, role, oracle_fn, meta, base)
             continue
         if any(loc_vars_in(c, loc_names) for c in r.pc):
             res.loc_dependent = True
@@ -435,6 +436,9 @@ def run_case(chk, engine, detector, su, label, loc_names, oracle_fn=None, confir
             R = set(ids)
             (res.flagged, res.silent) = (res.flagged + 1, res.silent) if R else (res.flagged, res.silent + 1)
             by_id = {}
+            if only_panics:
+                cls = []
+                R = set()
             for node, lid, flag, never in cls:
                 by_id.setdefault(lid, []).append((flag, never, node))
             # missed canonical nodes
